@@ -21,6 +21,10 @@ func Sig(v ssa.Value) string {
 	for strings.Contains(s, "*&*&") {
 		s = strings.ReplaceAll(s, "*&*&", "*&")
 	}
+	// the address of a local copy of x is, for the read-only uses the rules look at, the address of x
+	for strings.Contains(s, "&*") {
+		s = strings.ReplaceAll(s, "&*", "")
+	}
 	return s
 }
 
@@ -180,8 +184,26 @@ func sig(v ssa.Value, depth int, seen map[ssa.Value]bool) string {
 		}
 		return "local:" + Short(x.Type().String())
 	case *ssa.Phi:
+		edges := x.Edges
+		if IsExpansionTemp(x) {
+			// the result variable of an expanded helper: the zero values that accompany the
+			// helper's failure exits are not what the caller goes on to use
+			var live []ssa.Value
+			for _, e := range edges {
+				if c, isC := e.(*ssa.Const); isC && (c.Value == nil || isZeroConst(c)) {
+					continue
+				}
+				live = append(live, e)
+			}
+			if len(live) == 1 {
+				return sig(live[0], depth, seen)
+			}
+			if len(live) > 1 {
+				edges = live
+			}
+		}
 		var es []string
-		for _, e := range x.Edges {
+		for _, e := range edges {
 			es = append(es, sig(e, depth+1, seen))
 		}
 		return "phi(" + strings.Join(es, "|") + ")"
@@ -210,10 +232,45 @@ type CondFact struct {
 // only through that edge (walks the dominator tree).
 func DomConds(b *ssa.BasicBlock) []CondFact {
 	var out []CondFact
-	for d := b; d != nil; d = d.Idom() {
+	next := func(d *ssa.BasicBlock) *ssa.BasicBlock { return d.Idom() }
+	steps := 0
+	for d := b; d != nil && steps < 4*len(b.Parent().Blocks)+8; d = next(d) {
+		steps++
+		next = func(d *ssa.BasicBlock) *ssa.BasicBlock { return d.Idom() }
 		id := d.Idom()
 		if id == nil {
 			break
+		}
+		// jump threading: d is entered only through one edge of id, id branches on a phi it
+		// defines, and only one predecessor of id can deliver the value for that edge: the
+		// walk continues from that predecessor (its own dominating conditions hold here)
+		if len(d.Preds) == 1 && d.Preds[0] == id && len(id.Succs) == 2 && id.Succs[0] != id.Succs[1] {
+			si := 1
+			if id.Succs[0] == d {
+				si = 0
+			}
+			if p := solePredFor(id, si); p != nil && len(id.Preds) > 1 && branchesOnExpansionTemp(id) {
+				if iff, ok := lastIf(id); ok {
+					taken := si == 0
+					v, neg := BoolCond(iff.Cond)
+					if neg {
+						taken = !taken
+					}
+					out = append(out, CondFact{If: iff, Taken: taken, Sig: Sig(v)})
+				}
+				// facts of the edge p -> id itself
+				if iff, ok := lastIf(p); ok && len(p.Succs) == 2 && p.Succs[0] != p.Succs[1] {
+					taken := p.Succs[0] == id
+					v, neg := BoolCond(iff.Cond)
+					if neg {
+						taken = !taken
+					}
+					out = append(out, CondFact{If: iff, Taken: taken, Sig: Sig(v)})
+				}
+				pp := p
+				next = func(*ssa.BasicBlock) *ssa.BasicBlock { return pp }
+				continue
+			}
 		}
 		if len(id.Instrs) == 0 {
 			continue
@@ -407,4 +464,31 @@ func sprintfConcat(x *ssa.Call, depth int, seen map[ssa.Value]bool) (string, boo
 		out = "(" + out + " + " + p + ")"
 	}
 	return out, true
+}
+
+// branchesOnExpansionTemp: the block ends in a test of a result variable of an expanded helper.
+func branchesOnExpansionTemp(b *ssa.BasicBlock) bool {
+	iff, ok := lastIf(b)
+	if !ok {
+		return false
+	}
+	v := ssa.Value(nil)
+	if nv, _, isNil := NilCheck(iff.Cond); isNil {
+		v = nv
+	} else {
+		v, _ = BoolCond(iff.Cond)
+	}
+	phi, isPhi := v.(*ssa.Phi)
+	return isPhi && phi.Block() == b && IsExpansionTemp(phi)
+}
+
+func isZeroConst(c *ssa.Const) bool {
+	if c.Value == nil {
+		return true
+	}
+	switch c.Value.ExactString() {
+	case "0", "false", `""`:
+		return true
+	}
+	return false
 }
